@@ -10,6 +10,7 @@ Grammar (line oriented; `#` starts a comment outside blocks; a block is  <<< ...
   opaque TYPE-PREFIX ...            (R6: struct field types starting with one of these become `Opaque`)
   dropfield STRUCT FIELD ...        (R6b: field removed from struct AND from struct literals of that type)
   rewrite `old tokens` => `new text`   (unit-wide token rewrite, reported)
+  opaque_call `Path::Ctor` => `stub()` (unit-wide: a call of that constructor, WITH its arguments, becomes the stub expression; reported)
   assume NOTE                       (free-text assumption for the evidence)
 
   contracts_of UNIT.vspec           (every method contract of another unit as `external` callee contracts)
@@ -80,6 +81,7 @@ class Unit:
         self.opaque = []
         self.dropfields = []
         self.rewrites = []
+        self.opaque_calls = []
         self.assumes = []
         self.items = []             # ("struct"|"enum"|"opaque_type"|"fn"|"trait_stub", ...)
         self.path = None
@@ -188,6 +190,9 @@ def parse(path, include_dir=None, part=False):
             u.opaque += [a[1] for a in args]
         elif kw == "dropfield":
             u.dropfields.append((word(0), word(1)))
+        elif kw == "opaque_call":
+            # opaque_call `Path::Ctor` => `stub()` : every call `Path::Ctor( ... )` (arguments dropped) becomes the stub expression
+            u.opaque_calls.append((tick(0), tick(2)))
         elif kw == "rewrite":
             if word(1) != "=>":
                 raise SpecError("%s:%d: rewrite `a` => `b`" % (path, line))
@@ -213,6 +218,7 @@ def parse(path, include_dir=None, part=False):
             u.items += sub.items
             u.opaque += sub.opaque
             u.rewrites += sub.rewrites
+            u.opaque_calls += sub.opaque_calls
             u.prelude += sub.prelude
             u.uses += sub.uses
             u.tail += sub.tail
